@@ -52,6 +52,35 @@ check("C17", "fault_enumeration",
       "exhaustive fault / adversarial-input enumeration against the real generator in isolated processes",
       "DESIGN.md 4 C17")
 
+check("C08", "model_checking",
+      "Explicit-state search over the real process: BFS over call histories to the fixpoint of reachable cache states "
+      "(state = content of both process-wide caches read through hook H1), all histories up to a length bound without "
+      "de-duplication, and a preemption-bounded DFS over thread schedules executed by real threads on the real mutex "
+      "under a baton scheduler (one fresh process per schedule, failing schedules replayed). Every call's outcome is "
+      "compared with the same call made alone in a fresh process.",
+      "Every model state is an implementation state (no separate model). Scheduling points: cache-lock acquisitions and "
+      "thread start/end. 2-3 threads; larger counts by the serialisation argument of DESIGN.md. Hash-seed nondeterminism "
+      "is sampled (3 fresh processes per solo outcome), not controlled.",
+      "explicit-state BFS over histories of the real code + preemption-bounded schedule enumeration under a controlled scheduler",
+      "DESIGN.md 4 C08, appendix C")
+
+check("C15", "exploration",
+      "Deviation-bounded exhaustive enumeration of the GraphQL response grammar (each optional member absent / null / "
+      "present, 0-2 errors, paths over names and indices, nested extensions, unknown members) against the real "
+      "Response<T> / Error types, T = JSON map and a derive-generated type; full product of Error values; negative "
+      "catalogue. Oracle: an independent envelope model (accepted, preserved, round-trips, Display format).",
+      "Trusted: the envelope model written from the property text and the GraphQL spec section 7.",
+      "bounded exhaustive enumeration of a response grammar against a reference model of the envelope",
+      "DESIGN.md 4 C15")
+
+check("C16", "exploration",
+      "Full product of the ID value alphabet x both helper functions x four deserialiser paths on the real serde_with "
+      "module; every ID type expression of list depth <= 2 (thorough 3) x four placements generated, inspected at token "
+      "level (helper on exactly the ID fields), compiled and fed string / integer / null / wrong-kind / absent vectors.",
+      "Trusted: rustc and serde as semantics of the generated code. Known finding: ID under a list does not compile.",
+      "exhaustive enumeration of value alphabet x deserialiser paths, and of type expressions x placements on compiled generated code",
+      "DESIGN.md 4 C16")
+
 NOT_APPLICABLE = []
 
 
